@@ -102,10 +102,16 @@ def extract(tree):
     _need(_ws("if (soon) { janet_q_push_head(&janet_vm.spawn, &t, sizeof(t)); } else { janet_q_push(&janet_vm.spawn, &t, sizeof(t)); }"),
           sg, "schedule_general: enqueue")
     l1 = csrc.func_body(src, "janet_loop1")
-    _need(_ws("janet_q_pop(&janet_vm.spawn, &task, sizeof(task)); "
-              "if (task.fiber->gc.flags & JANET_FIBER_EV_FLAG_SUSPENDED) janet_ev_dec_refcount(); "
-              "task.fiber->gc.flags &= ~(JANET_FIBER_EV_FLAG_CANCELED | JANET_FIBER_EV_FLAG_SUSPENDED); "
-              "if (task.expected_sched_id != task.fiber->sched_id) continue;"), l1, "janet_loop1: run phase / stale-task filter")
+    m = _need(_ws("janet_q_pop(&janet_vm.spawn, &task, sizeof(task)); "
+                  "if (task.fiber->gc.flags & JANET_FIBER_EV_FLAG_SUSPENDED) janet_ev_dec_refcount(); "
+                  "task.fiber->gc.flags &= ~(JANET_FIBER_EV_FLAG_CANCELED | JANET_FIBER_EV_FLAG_SUSPENDED); "
+                  "if (task.expected_sched_id != task.fiber->sched_id) continue;") + r"\s*(" + _ws("task.fiber->sched_id++;") + r"\s*)?"
+              + _ws("Janet res; JanetSignal sig = janet_continue_signal(task.fiber, task.value, &res, task.sig);"),
+              l1, "janet_loop1: run phase / stale-task filter / resume")
+    # the fiber's generation also advances when its task is resumed (between the filter and janet_continue_signal)
+    c["resumeBumps"] = m.group(1) is not None
+    if len(re.findall(r"sched_id\s*\+\+|\+\+\s*\w+(?:->|\.)sched_id|sched_id\s*[-+]?=[^=]", l1)) != (1 if c["resumeBumps"] else 0):
+        raise ExtractError("ev.c: janet_loop1: unexpected write to a sched_id")
     _need(_ws("while (janet_vm.spawn.head != janet_vm.spawn.tail) {"), l1, "janet_loop1: run phase loop")
     _need(_ws("if (to.fiber->sched_id == to.sched_id) {"), l1, "janet_loop1: timer sched_id test")
 
@@ -188,7 +194,7 @@ def extract(tree):
     return c
 
 
-ORDER = ["pushBlocksStrict", "choiceReadyStrict", "choiceGiveSeesReader", "popSkipsStaleWriter", "closeChecksSched"]
+ORDER = ["pushBlocksStrict", "choiceReadyStrict", "choiceGiveSeesReader", "popSkipsStaleWriter", "closeChecksSched", "resumeBumps"]
 
 
 def render(tree):
@@ -200,6 +206,7 @@ def render(tree):
         "choiceGiveSeesReader": "first loop of cfun_channel_choice: `|| janet_channel_has_reader(chan)`",
         "popSkipsStaleWriter": "janet_channel_pop_with_lock skips pending writers whose sched_id is stale",
         "closeChecksSched": "cfun_channel_close compares sched_ids before waking a local waiter",
+        "resumeBumps": "run phase of janet_loop1: `task.fiber->sched_id++` between the stale-task filter and janet_continue_signal",
     }
     for k in ORDER:
         out.append("/-- %s -/" % doc[k])
